@@ -121,3 +121,19 @@ package trafficlogger
 //@   ensures !wlock && !rlock
 //@   ensures forallStr(k, onlineOf(s, k) == old(onlineOf(s, k)) && txOf(s, k) == old(txOf(s, k)) && rxOf(s, k) == old(rxOf(s, k)) && indom(s.KickMap, k) == old(indom(s.KickMap, k)))
 //@   modifies any
+
+// POST /kick: the 200 answer means every listed id is on the kick list (whatever else the
+// logger knows about that id: the statistics map is emptied by a clearing poll and is not the
+// set of connected users); nothing but the kick list changes.
+//@ guard call ResponseWriter.WriteHeader(w2, code) in (*trafficStatsServerImpl).kick
+//@   props C15
+//@   requires code == 200 && forall(j, 0, len(ids), indom(s.KickMap, ids[j]))
+//@ func (*trafficStatsServerImpl).kick
+//@   props C15
+//@   nonil
+//@   requires s.KickMap != nil && r != nil && !isnil(w) && !wlock && !rlock
+//@   ensures !wlock && !rlock
+//@   modifies any
+//@   loop 0
+//@     invariant wlock && !rlock
+//@     invariant forall(j, 0, rangeindex + 1, indom(s.KickMap, ids[j]))
